@@ -41,6 +41,8 @@ type c06Case struct {
 	Truncate  int    `json:"truncate_at"` // -1 = none
 	TruncErr  bool   `json:"truncate_with_conn_error"`
 	Limit     int    `json:"recv_limit,omitempty"`
+	Plain     bool   `json:"plain_response_writer,omitempty"` // the ResponseWriter offers Header/Write/WriteHeader only
+	H2        bool   `json:"over_http2,omitempty"`            // gRPC-web / HTTP transcoding request arriving over HTTP/2
 }
 
 var errConnReset = errors.New("env: read: connection reset by peer")
@@ -217,22 +219,29 @@ func (e *c06Env) exec(tc *c06Case) c06Result {
 	route := map[string]string{"cs": "/t/cs", "ss": "/t/ss", "bidi": "/t/bidi", "pingpong": "/t/bidi"}[tc.Shape]
 	wsRoute := map[string]string{"cs": "/ws/cs", "ss": "/ws/ss", "bidi": "/ws/bidi", "pingpong": "/ws/bidi"}[tc.Shape]
 	full := "/vs.T/" + method
+	var h http.Handler = m
+	if tc.Plain {
+		h = plainMux{m}
+	}
+	if tc.H2 {
+		h = h2Mux{h}
+	}
 	body := reqBody{Data: wireBytes, Script: sc, CL: -1}
 	var res *callResult
 	codec := "proto"
 	switch tc.Transport {
 	case "grpc":
-		res = doGRPC(m, full, "application/grpc", nil, body)
+		res = doGRPC(h, full, "application/grpc", nil, body)
 	case "grpc-gzip":
-		res = doGRPC(m, full, "application/grpc+proto", http.Header{"Grpc-Encoding": {"gzip"}}, body)
+		res = doGRPC(h, full, "application/grpc+proto", http.Header{"Grpc-Encoding": {"gzip"}}, body)
 	case "grpc+json":
 		codec = "json"
-		res = doGRPC(m, full, "application/grpc+json", nil, body)
+		res = doGRPC(h, full, "application/grpc+json", nil, body)
 	case "grpc+rev":
 		codec = "rev"
-		res = doGRPC(m, full, "application/grpc+rev", nil, body)
+		res = doGRPC(h, full, "application/grpc+rev", nil, body)
 	case "grpc-xrot":
-		res = doGRPC(m, full, "application/grpc", http.Header{"Grpc-Encoding": {"x-rot"}}, body)
+		res = doGRPC(h, full, "application/grpc", http.Header{"Grpc-Encoding": {"x-rot"}}, body)
 		// un-rot the reply frames for the common decoder
 		if !res.Panicked {
 			res.Msgs, res.ParseErr = nil, ""
@@ -252,22 +261,22 @@ func (e *c06Env) exec(tc *c06Case) c06Result {
 			}
 		}
 	case "web":
-		res = doWeb(m, full, "application/grpc-web+proto", nil, body)
+		res = doWeb(h, full, "application/grpc-web+proto", nil, body)
 	case "web-gzip":
-		res = doWeb(m, full, "application/grpc-web+proto", http.Header{"Grpc-Encoding": {"gzip"}}, body)
+		res = doWeb(h, full, "application/grpc-web+proto", http.Header{"Grpc-Encoding": {"gzip"}}, body)
 	case "webtext":
 		// doWeb base64-encodes Data itself; hand it the already encoded (and truncated) text
-		res = doWebRaw(m, full, "application/grpc-web-text", body)
+		res = doWebRaw(h, full, "application/grpc-web-text", body)
 	case "http-json", "http-json-nl":
 		codec = "json"
-		res = doHTTP(m, "POST", route, "", http.Header{"Content-Type": {"application/json"}}, body)
+		res = doHTTP(h, "POST", route, "", http.Header{"Content-Type": {"application/json"}}, body)
 	case "http-proto":
-		res = doHTTP(m, "POST", route, "", http.Header{"Content-Type": {"application/protobuf"}}, body)
+		res = doHTTP(h, "POST", route, "", http.Header{"Content-Type": {"application/protobuf"}}, body)
 	case "http-json-gzip":
 		codec = "json"
-		res = doHTTP(m, "POST", route, "", http.Header{"Content-Type": {"application/json"}, "Content-Encoding": {"gzip"}}, body)
+		res = doHTTP(h, "POST", route, "", http.Header{"Content-Type": {"application/json"}, "Content-Encoding": {"gzip"}}, body)
 	case "http-proto-gzip":
-		res = doHTTP(m, "POST", route, "", http.Header{"Content-Type": {"application/protobuf"}, "Content-Encoding": {"gzip"}}, body)
+		res = doHTTP(h, "POST", route, "", http.Header{"Content-Type": {"application/protobuf"}, "Content-Encoding": {"gzip"}}, body)
 	case "ws", "ws-frag":
 		codec = "json"
 		res = doWS(m, wsRoute, "", nil, wireBytes, sc)
@@ -534,6 +543,8 @@ type c06Base struct {
 	Transport, Shape string
 	In, Out          []int
 	Limit            int
+	Plain            bool // behind a ResponseWriter without Flush (complete streams, coarse schedules)
+	H2               bool // the request arrives over HTTP/2
 	Scale            bool // long stream or large messages: coarse read schedules only
 }
 
@@ -600,6 +611,26 @@ func c06Bases(thorough bool) []c06Base {
 				c06Base{Transport: tr, Shape: "ss", In: []int{70000}, Out: []int{70000, 5000}, Scale: true})
 		}
 	}
+	// behind a ResponseWriter that is not a Flusher: reply sizes of every residue mod 3 (what a
+	// base64 body leaves pending), one to three replies
+	for _, tr := range []string{"web", "web-gzip", "webtext", "http-json", "http-proto"} {
+		for _, sh := range []string{"ss", "pingpong", "cs"} {
+			for _, o := range [][]int{{0}, {1}, {2}, {3}, {4}, {3, 0, 70}, {1, 1}} {
+				if sh == "cs" && len(o) > 1 {
+					continue
+				}
+				in := []int{5}
+				if sh == "pingpong" {
+					in = o
+				}
+				out = append(out, c06Base{Transport: tr, Shape: sh, In: in, Out: o, Plain: true, Scale: true})
+				if len(o) != 2 {
+					// and the same calls arriving over HTTP/2 (gRPC-web from a browser over TLS)
+					out = append(out, c06Base{Transport: tr, Shape: sh, In: in, Out: o, H2: true, Scale: true})
+				}
+			}
+		}
+	}
 	// HttpBody chunking: uploads of every length 0..3*limit+1 and the raw passthrough
 	for _, lim := range []int{4, 8} {
 		for n := 0; n <= 3*lim+1; n++ {
@@ -632,7 +663,7 @@ func isWS(transport string) bool { return transport == "ws" || transport == "ws-
 
 func runC06(c *Ctx) {
 	r := c.Run
-	r.Rule("transport{gRPC identity/gzip/+json/+a custom codec/a custom compressor, gRPC-web identity/gzip, gRPC-web-text, HTTP JSON stream (also newline-delimited with whitespace after the last object), HTTP varint-delimited protobuf, both also inside a gzip Content-Encoding (complete streams only), HttpBody chunking (limits 4, 8, 64; uploads of every length 0..3·limit+1), AsHTTPBodyReader/Writer passthrough, WebSocket with whole and with fragmented (2-4 frames) messages} × shape{client-, server-, bidi batch, bidi ping-pong} × client sequence (0..3 messages, payloads 0/1/5/300, and a string message with backslashes, quotes and braces) × handler sequence (0..3 replies) × [scale: 40-message streams in both directions and 5 kB / 70 kB messages on every transport and shape, with uniform read sizes 1..65536 and four truncation points] × read schedule (all 2^(n-1) partitions for streams <= 10 (thorough 13) bytes; uniform chunk sizes, every single cut and every pair of cuts (bounded) beyond) × EOF convention × truncation at every offset followed by EOF or a connection error; plus 3-message streams whose 1st/2nd/3rd message exceeds a receive limit of 40 with a field boundary exactly at the limit (9 transports); states = (transport, bytes consumed, messages delivered); distinct = (transport, shape, sequence) bases")
+	r.Rule("transport{gRPC identity/gzip/+json/+a custom codec/a custom compressor, gRPC-web identity/gzip, gRPC-web-text, HTTP JSON stream (also newline-delimited with whitespace after the last object), HTTP varint-delimited protobuf, both also inside a gzip Content-Encoding (complete streams only), HttpBody chunking (limits 4, 8, 64; uploads of every length 0..3·limit+1), AsHTTPBodyReader/Writer passthrough, WebSocket with whole and with fragmented (2-4 frames) messages} × shape{client-, server-, bidi batch, bidi ping-pong} × client sequence (0..3 messages, payloads 0/1/5/300, and a string message with backslashes, quotes and braces) × handler sequence (0..3 replies) × [gRPC-web, gRPC-web-text and HTTP streams also behind a ResponseWriter without Flush and arriving over HTTP/2, reply sizes of every residue mod 3] × [scale: 40-message streams in both directions and 5 kB / 70 kB messages on every transport and shape, with uniform read sizes 1..65536 and four truncation points] × read schedule (all 2^(n-1) partitions for streams <= 10 (thorough 13) bytes; uniform chunk sizes, every single cut and every pair of cuts (bounded) beyond) × EOF convention × truncation at every offset followed by EOF or a connection error; plus 3-message streams whose 1st/2nd/3rd message exceeds a receive limit of 40 with a field boundary exactly at the limit (9 transports); states = (transport, bytes consumed, messages delivered); distinct = (transport, shape, sequence) bases")
 	r.Assume("an empty client stream is sent as an empty chunked body (Content-Length unknown)", "client-streaming with a unary reply over WebSocket is excluded: the only way for a WebSocket client to end its stream is to close, which also ends the reply channel", "HTTP/2 flow control and real half-close are seen only in the conformance runs")
 	fullMax := 10
 	if c.Thorough() {
@@ -654,7 +685,7 @@ func runC06(c *Ctx) {
 		local := map[[2]int]struct{}{}
 		outc := map[string]int64{}
 		reported := map[string]bool{}
-		tc := c06Case{Transport: b.Transport, Shape: b.Shape, In: b.In, Out: b.Out, Limit: b.Limit, Truncate: -1}
+		tc := c06Case{Transport: b.Transport, Shape: b.Shape, In: b.In, Out: b.Out, Limit: b.Limit, Truncate: -1, Plain: b.Plain, H2: b.H2}
 		run := func() {
 			res := e.exec(&tc)
 			execs++
@@ -678,7 +709,7 @@ func runC06(c *Ctx) {
 			reported[res.oracle] = true
 			cp := tc
 			cp.Cuts = append([]int(nil), tc.Cuts...)
-			r.Violation(report.Violation{Oracle: res.oracle, Key: fmt.Sprintf("%s transport=%s shape=%s in=%v out=%v limit=%d cuts=%v maxread=%d eofwith=%v trunc=%d truncerr=%v", res.oracle, tc.Transport, tc.Shape, tc.In, tc.Out, tc.Limit, tc.Cuts, tc.MaxRead, tc.EOFWith, tc.Truncate, tc.TruncErr), Case: cp, Note: res.note})
+			r.Violation(report.Violation{Oracle: res.oracle, Key: fmt.Sprintf("%s transport=%s shape=%s in=%v out=%v limit=%d cuts=%v maxread=%d eofwith=%v trunc=%d truncerr=%v%s", res.oracle, tc.Transport, tc.Shape, tc.In, tc.Out, tc.Limit, tc.Cuts, tc.MaxRead, tc.EOFWith, tc.Truncate, tc.TruncErr, map[bool]string{true: " plain-writer"}[tc.Plain]+map[bool]string{true: " over-http2"}[tc.H2]), Case: cp, Note: res.note})
 		}
 		for _, eofWith := range []bool{false, true} {
 			tc.EOFWith = eofWith
@@ -759,7 +790,7 @@ func runC06(c *Ctx) {
 		for k, v := range outc {
 			r.OutcomeN(k, v)
 		}
-		r.Distinct(fmt.Sprintf("%s|%s|%v|%v|%d", b.Transport, b.Shape, b.In, b.Out, b.Limit))
+		r.Distinct(fmt.Sprintf("%s|%s|%v|%v|%d|%v|%v", b.Transport, b.Shape, b.In, b.Out, b.Limit, b.Plain, b.H2))
 		if r.WantSample() && bi%53 == 1 {
 			r.Sample(map[string]any{"transport": b.Transport, "shape": b.Shape, "in": b.In, "out": b.Out, "limit": b.Limit, "stream_len": n, "schedules": execs})
 		}
